@@ -257,6 +257,52 @@ func extractC13() *lean {
 	l.def("createChecksSubjectInsideTransaction", "Bool", c13Bool(inside), inside)
 	l.def("createSubjectChecksOutsideTransaction", "List String", leanStrList(outside), outside)
 
+	// ---- transactionHelper: are the change records saved with the transaction handle inside the first Transaction closure?
+	savedInside := false
+	var savesOutside []string
+	if th := c13Method(mgr, "SqlManager", "transactionHelper"); th != nil {
+		txIndex := 0
+		var walk func(n ast.Node, inTx int)
+		walk = func(n ast.Node, inTx int) {
+			ast.Inspect(n, func(m ast.Node) bool {
+				switch x := m.(type) {
+				case *ast.CallExpr:
+					f := exprString(x.Fun)
+					if f == "r.DB.Transaction" && inTx == 0 {
+						txIndex++
+						for _, a := range x.Args {
+							if fl, ok := a.(*ast.FuncLit); ok {
+								walk(fl.Body, txIndex)
+							}
+						}
+						return false
+					}
+					if strings.HasSuffix(f, ".Save") || strings.HasSuffix(f, ".Create") {
+						if inTx == 0 {
+							savesOutside = append(savesOutside, f)
+						}
+					}
+				case *ast.RangeStmt:
+					if inTx == 1 && exprString(x.X) == "changes" {
+						ast.Inspect(x.Body, func(k ast.Node) bool {
+							if c, ok := k.(*ast.CallExpr); ok && exprString(c.Fun) == "tx.Save" {
+								savedInside = true
+							}
+							return true
+						})
+					}
+				}
+				return true
+			})
+		}
+		walk(th.Body, 0)
+	}
+	if savesOutside == nil {
+		savesOutside = []string{}
+	}
+	l.def("changeLogSavedInsideFirstTransaction", "Bool", c13Bool(savedInside), savedInside)
+	l.def("savesOutsideTransaction", "List String", leanStrList(savesOutside), savesOutside)
+
 	// ---- deleteUncommittedChange: deletes the version, and the DID when the change created it
 	delVersion, delDID := false, false
 	if fd := funcDecl(mgr, "deleteUncommittedChange"); fd != nil {
